@@ -310,10 +310,10 @@ class ProgramGen(object):
             return ['f', rng.choice([0.5, 0.25, 1.5, 2.5, 1.0, 0.1])]
         if r < 0.82:
             return ['f', 10 ** rng.uniform(-3, 3)]
-        if r < 0.90:
+        if r < 0.92:
+            # numpy.int32 counts are not generated: numpy wraps int32 products beyond 2**31 silently
+            # (count*charge with a count of 1.5e9), which is numpy's arithmetic, not the library's
             return ['ni64', rng.randint(1, 12)]
-        if r < 0.94:
-            return ['ni32', rng.randint(1, 12)]
         return ['nf64', rng.choice([0.5, 1.5, 10 ** rng.uniform(-3, 3)])]
 
     def multiplier(self, rng=None):
@@ -331,10 +331,10 @@ class ProgramGen(object):
             return ['i', rng.choice([100, 1000, 65536, 999999, 1000000, rng.randint(13, 10 ** 6)])]
         if r < 0.79:
             return ['f', 10 ** rng.uniform(-6, 6)]
-        if r < 0.86:
+        if r < 0.88:
             return ['ni64', rng.randint(1, 12)]
         if r < 0.90:
-            return ['ni32', rng.randint(1, 12)]
+            return ['ni32', rng.randint(1, 12)]   # as a multiplier numpy hands a Python int to __rmul__
         return ['nf64', 10 ** rng.uniform(-6, 6)]
 
     # -- atoms ----------------------------------------------------------
